@@ -225,7 +225,16 @@ func (s *Solver) CheckT(pc []*Term, extra *Term, vars []*Term, wantModel bool, q
 	if quickMs > 0 {
 		s.curTimeout = quickMs
 	}
-	res, model, who := s.checkZ3(pc, extra, vars, wantModel)
+	var res Result
+	var model map[string]uint64
+	var who string
+	if s.ArithHint && quickMs == 0 && !extra.IsTrue() {
+		// arithmetic-heavy obligations (checksums): bit-blasting in z3 does not finish;
+		// go straight to the portfolio (cvc5 integer encoding decides them in seconds)
+		res, who = Unknown, "z3-skipped"
+	} else {
+		res, model, who = s.checkZ3(pc, extra, vars, wantModel)
+	}
 	if res == Unknown && quickMs > 0 {
 		s.Stats.QuickUnknown++
 	} else if res == Unknown {
